@@ -5,9 +5,11 @@
 //	[opCheck,   id, acct]                    R += [id, System.Runtime.CheckWitness(acct)]
 //	[opCall,    id, hash, flags, prog]       System.Contract.Call(hash, "p", flags, [R, prog]);  R += [id, 1]
 //	[opCallTry, id, hash, flags, prog]       the same inside TRY;  R += [id, 1] / on a caught exception [id, 2]
-//	[opUpdate,  id, manifest]                ContractManagement.update(null, manifest);          R += [id, 1]
+//	[opUpdate,  id, manifest, cb]            ContractManagement.update(null, manifest, data);    R += [id, 1]
 //	[opDestroy, id]                          ContractManagement.destroy();                       R += [id, 1]
-//	[opDeploy,  id, nef, manifest]           ContractManagement.deploy(nef, manifest);           R += [id, 1]
+//	[opDeploy,  id, nef, manifest, cb]       ContractManagement.deploy(nef, manifest, data);     R += [id, 1]
+//	                                         cb = null: data = null;  cb = prog: data = [R, prog] - the contract's
+//	                                         _deploy(data, isUpdate) method interprets prog before update/deploy return
 //	[opAbort,   id]                          ABORT  (the transaction FAULTs)
 //	[opThrow,   id]                          THROW  (caught by the nearest enclosing opCallTry, else FAULT)
 //	[opMark,    id]                          R += [id, 0]
@@ -172,10 +174,19 @@ func blob(mgmt util.Uint160) []byte {
 	store()
 	a.jmp(opcode.JMPL, "next")
 
+	// data argument of update / deploy: null, or [R, prog] for the _deploy method
+	data := func(i opcode.Opcode, pfx string) {
+		fld(i)
+		a.op(opcode.DUP, opcode.ISNULL)
+		a.jmp(opcode.JMPIFL, pfx+"nodata")
+		a.op(opcode.LDARG0, opcode.PUSH2, opcode.PACK)
+		a.label(pfx + "nodata")
+	}
 	a.label("k_update")
 	a.op(opcode.DROP)
+	data(opcode.PUSH3, "u_")
 	fld(opcode.PUSH2) // manifest
-	a.op(opcode.PUSHNULL, opcode.PUSH2, opcode.PACK)
+	a.op(opcode.PUSHNULL, opcode.PUSH3, opcode.PACK)
 	native("update")
 	a.op(opcode.DROP)
 	a.op(opcode.PUSH1)
@@ -193,9 +204,10 @@ func blob(mgmt util.Uint160) []byte {
 
 	a.label("k_deploy")
 	a.op(opcode.DROP)
+	data(opcode.PUSH4, "d_")
 	fld(opcode.PUSH3) // manifest
 	fld(opcode.PUSH2) // nef
-	a.op(opcode.PUSH2, opcode.PACK)
+	a.op(opcode.PUSH3, opcode.PACK)
 	native("deploy")
 	a.op(opcode.DROP)
 	a.op(opcode.PUSH1)
@@ -256,4 +268,22 @@ func blob(mgmt util.Uint160) []byte {
 	a.label("end")
 	a.op(opcode.DROP, opcode.RET)
 	return a.done()
+}
+
+// contractScript = interpreter + the _deploy(data, isUpdate) stub.  Returns the script and the stub's offset.
+func contractScript(mgmt util.Uint160) ([]byte, int) {
+	b := blob(mgmt)
+	off := len(b)
+	a := newAsm()
+	// stack (top first): data, isUpdate
+	a.op(opcode.SWAP, opcode.DROP, opcode.DUP, opcode.ISNULL)
+	a.jmp(opcode.JMPIFNOTL, "go")
+	a.op(opcode.DROP, opcode.RET)
+	a.label("go")
+	a.op(opcode.UNPACK, opcode.DROP) // R (top), prog
+	st := a.done()
+	j := make([]byte, 5)
+	j[0] = byte(opcode.JMPL)
+	binary.LittleEndian.PutUint32(j[1:], uint32(int32(-(off + len(st)))))
+	return append(append(append([]byte{}, b...), st...), j...), off
 }
